@@ -12,7 +12,8 @@ import random
 from .. import matchpipe, objdump, parsepipe, tlc
 from ..common import Report, MachineryError, load_known_findings, seed
 
-OWN = {"C08": ("C08_",), "C09": ("C09_", "C08_ParserFailed"), "C10": ("C10_",)}
+# a record that is lost or invented (C08_Count) also means that the stream does not encode the instruction list (C10)
+OWN = {"C08": ("C08_",), "C09": ("C09_", "C08_ParserFailed"), "C10": ("C10_", "C08_Count")}
 SIZES = {  # tier -> (random bytes, template instructions, chunk size)
     "quick": dict(blob=120000, templates=12000, chunk=40, i386=0),
     "thorough": dict(blob=400000, templates=60000, chunk=40, i386=60000),
@@ -34,6 +35,7 @@ def design_level(report, tier):
 
 def part_a(report, prop, tier):
     U = matchpipe.export_universe("Export_C08", f"Export_C08_{tier}.cfg", report)
+    report.scale_block = U["scale_block"]
     items = U["listings"]
     if prop == "C08":
         items = [x for x in items if not (len(x["listing"]) == 1 and x["listing"][0]["mn"] == "op")]
@@ -83,6 +85,42 @@ def part_b(report, prop, tier):
     return cases, verdicts, obs
 
 
+def scale_cases(block, tier):
+    """Texts of 10^3 .. 10^5+ lines: a label line and the block repeated K times.  For the large ones the label
+    name is sized so that a line ends exactly at character 2**20 of the text (and 2**21 ...)."""
+    ks = [1, 255, 4100] if tier == "quick" else [1, 255, 256, 4100, 9000, 37500]
+    out = []
+    body = "".join(l + "\n" for l in block)
+    ends = []
+    off = 0
+    for l in block:
+        off += len(l) + 1
+        ends.append(off)
+    for k in ks:
+        name = "f"
+        for n in range(1, 400):
+            head = len("0000000000401000 <" + "f" * n + ">:\n")
+            if any((2 ** 20 - head - e) % len(body) == 0 and (2 ** 20 - head - e) // len(body) < k for e in ends):
+                name = "f" * n
+                break
+        text = "0000000000401000 <" + name + ">:\n" + body * k
+        out.append((k, text))
+    return out
+
+
+def part_scale(report, prop, tier, block):
+    sc = scale_cases(block, tier)
+    obs = parsepipe.parse_texts([t for _, t in sc], f"{prop}s")
+    cases = []
+    for (k, _), o in zip(sc, obs):
+        c = parsepipe.case("scale", block, [], o)
+        c["reps"] = k
+        cases.append(c)
+    verdicts = parsepipe.validate(cases, report, f"{prop}s")
+    report.cov.setdefault("scale_texts", []).extend({"block_repetitions": k, "lines": k * len(block) + 1, "chars": len(t)} for k, t in sc)
+    return cases, verdicts
+
+
 def settle(report, prop, cases, verdicts, obs_by_case, part):
     own = OWN[prop]
     known = [f for f in load_known_findings() if f["status"] == "known" and f["property"] == prop and f.get("tag")]
@@ -120,6 +158,10 @@ def run(prop, tier):
     settle(report, prop, ca, va, None, "A")
     cb, vb, ob = part_b(report, prop, tier)
     settle(report, prop, cb, vb, ob, "B")
+    if prop in ("C08", "C10"):
+        cs, vs = part_scale(report, prop, tier, report.scale_block)
+        settle(report, prop, cs, vs, None, "scale")
+        cb, vb = cb + cs, vb + vs
     allc = ca + cb
     report.cov["evaluations"] = len(allc)
     report.cov["traces_validated_against_impl"] = len(allc)
